@@ -52,4 +52,13 @@ man = dict(
     not_applicable=na,
 )
 json.dump(man, open(os.path.join(ROOT, "MANIFEST.json"), "w"), indent=1)
+# merge known/Cxx.json into the single committed known_findings.json (build-time only; checks never write it)
+import glob
+allf = []
+for f in sorted(glob.glob(os.path.join(ROOT, "known", "C*.json"))):
+    allf += json.load(open(f)).get("findings", [])
+for e in allf:
+    if e.get("status") == "fixed" and "line" not in e:
+        e["line"] = f"fixed: property={e['property']} {e.get('commit','?')} {e['what']}"
+json.dump(dict(findings=allf), open(os.path.join(ROOT, "known_findings.json"), "w"), indent=1)
 print(f"{len(checks)} checks, {len(na)} not claimed")
